@@ -144,6 +144,18 @@ def check(rep, an, tier):
                     if meth == "hull_dist_scaling":
                         dist_structure(rep, res, entry, Fax)
                         CC.zero_rows(rep, res, entry)
+    # matrix adaptation: the transformed baseline and capture matrix keep their (adapted receptor) axes
+    from ..spec import rel_axis
+    for meth in ("hull_l1_scaling", "hull_dist_scaling"):
+        fields = estimator_fields(K="mat", baseline="vec")
+        kw = dict(B=CC.target(True, S("N", rel_axis("mat"))), relative=flag("relative", True))
+        if meth == "hull_dist_scaling":
+            kw["neutral_point"] = none()
+        res = an.run(f"{EST}.{meth}", kws=kw, self_fields=fields, spec=spec, config="relative=True,K=mat")
+        entry = f"ReceptorEstimator.{meth}"
+        R.rule_type_errors(rep, res, "SHAPE", "R-SHAPE", entry)
+        F.qty(rep, res, entry, subs=("mismatch", "centre", "frame-ratio"))
+        rep.holds("R-SHAPE", "matrix adaptation analysed", where=res.fn.loc(), construct=f"{meth} with a matrix K", entry=entry, config=res.config)
     rep.require("R-FORWARD", 20)
     rep.require("R-PURITY", 6)
     rep.require("R-SIGN", 2)
